@@ -16,8 +16,9 @@
    the repairs; [≅]: deep equality with nil and empty containers identified;
    [dyn_ty]: reflect.TypeOf.  The universe covers arrays and defined container types. *)
 From Coq Require Import List Bool Arith NArith ZArith String Ascii.
-From Eino Require Import Base.Util Base.Universe Model.Ser Model.SerCheckpoint
-     Proofs.Ser Proofs.SerLoud Proofs.SerTop Proofs.SerReg Proofs.SerRefl Proofs.SerTotal.
+From Eino Require Import Base.Util Base.Universe Model.Ser Model.SerCheckpoint Model.SerLits Model.SerStore
+     Proofs.Ser Proofs.SerLoud Proofs.SerTop Proofs.SerReg Proofs.SerRefl Proofs.SerTotal
+     Proofs.SerLit Proofs.SerStore.
 Import ListNotations.
 
 (* 1. Round trip: whatever the encoder accepts comes back equivalent, with the identical
@@ -79,6 +80,29 @@ Theorem ptr_to_unregistered_defined_container_fails_loudly :
     enc_at J JK jenc kenc fixed reg (S pn) (VDef d w) = Err E_UNKNOWN_TYPE.
 Proof. intros. now apply ptr_to_unregistered_def_err. Qed.
 Print Assumptions ptr_to_unregistered_defined_container_fails_loudly.
+
+(* 2b'. ... and so does a literal the JSON layer refuses, wherever it sits in the value: as a
+        value of basic kind ([val_lits]: handed to json.Marshal) or as a map key ([key_lits]:
+        handed to sonic.MarshalString), below any pointers, containers, struct fields, interface
+        boxes (for the current and for the old code).  With the JSON layer of the correspondence
+        check: NaN, +Inf, -Inf and complex numbers make Marshal return an error - it never
+        writes another value in their place. *)
+Theorem unencodable_literal_fails_loudly :
+  forall (J JK : Type) (jenc : base -> lit -> res J) (kenc : base -> lit -> res JK)
+         (fx : fixes) (reg : registry)
+         (json_returns_errors : forall b l, jenc b l <> Panic)
+         (key_json_returns_errors : forall b l, kenc b l <> Panic),
+  forall v pn,
+    (exists bl, In bl (val_lits v) /\ exists e, jenc (fst bl) (snd bl) = Err e) \/
+    (exists bl, In bl (key_lits v) /\ exists e, kenc (fst bl) (snd bl) = Err e) ->
+    exists e, enc_at J JK jenc kenc fx reg pn v = Err e.
+Proof. exact lit_err. Qed.
+Print Assumptions unencodable_literal_fails_loudly.
+Theorem nan_inf_complex_fail_loudly : forall fx reg v pn b l,
+  In (b, l) (val_lits v) \/ In (b, l) (key_lits v) -> unencodable_c b l = true ->
+  exists e, enc_at lit lit jenc_c kenc_c fx reg pn v = Err e.
+Proof. exact nonfinite_complex_err. Qed.
+Print Assumptions nan_inf_complex_fail_loudly.
 
 Theorem encoder_never_panics :
   forall (J JK : Type) (jenc : base -> lit -> res J) (kenc : base -> lit -> res JK)
@@ -212,6 +236,54 @@ Theorem checkpoint_types_stay_registered : forall l,
   rm_lookup (register_all (ckpt_reg []) l) (TStruct S_PREGEL) = Some "_eino_pregel_channel"%string.
 Proof. exact checkpoint_types_stay_registered. Qed.
 
+(* 5c. checkPointer.set / get over a store (Model/SerStore.v): the checkpoint written under an
+       id is what get reads back under that id - whatever the store held before (an earlier
+       checkpoint under the same id included) and whatever is written under other ids later -
+       as an equivalent *checkpoint: the type assertion in get holds, and every field of the
+       record (Channels, Inputs, State, SkipPreHandler, SubGraphs) is restored.  And get never
+       panics on what set wrote (no [safe], no [defs_ok]). *)
+Theorem checkpoint_store_roundtrip :
+  forall (J JK : Type) (jenc : base -> lit -> res J) (jdec : base -> J -> res lit)
+         (kenc : base -> lit -> res JK) (kdec : base -> JK -> res lit) (ureg : registry) (uenv : senv)
+         (json_roundtrip : forall b l j,
+             lit_in_base b l = true -> jsafe l = true -> jenc b l = Ok j -> jdec b j = Ok l)
+         (key_roundtrip : forall b l j,
+             lit_in_base b l = true -> jsafe l = true -> kenc b l = Ok j -> kdec b j = Ok l)
+         (registry_names_unique : NoDup (map fst (ckpt_reg ureg)))
+         (field_names_unique : forall n ds, struct_fields (ckpt_senv uenv) n = Some ds -> NoDup (map fst ds)),
+  forall s id cp s1 later s2,
+    has_type (ckpt_senv uenv) cp t_checkpoint_ptr = true -> safe cp -> defs_ok (ckpt_reg ureg) cp ->
+    cp_set J JK jenc kenc (ckpt_reg ureg) s id cp = Ok s1 ->
+    Forall (fun w => fst w <> id) later ->
+    cp_sets J JK jenc kenc (ckpt_reg ureg) s1 later = Ok s2 ->
+    exists cp', cp_get J JK jdec kdec (ckpt_reg ureg) (ckpt_senv uenv) s2 id = Ok (Some cp') /\
+                cp' ≅ cp /\ ty_of cp' = t_checkpoint_ptr /\
+                forall f x, ckpt_field cp f = Some x -> exists x', ckpt_field cp' f = Some x' /\ x' ≅ x.
+Proof. exact store_roundtrip_lemma. Qed.
+Print Assumptions checkpoint_store_roundtrip.
+Theorem checkpoint_get_never_panics :
+  forall (J JK : Type) (jenc : base -> lit -> res J) (jdec : base -> J -> res lit)
+         (kenc : base -> lit -> res JK) (kdec : base -> JK -> res lit) (ureg : registry) (uenv : senv)
+         (json_decoder_returns_errors : forall b j, jdec b j <> Panic)
+         (key_decoder_returns_errors : forall b j, kdec b j <> Panic)
+         (registry_names_unique : NoDup (map fst (ckpt_reg ureg)))
+         (field_names_unique : forall n ds, struct_fields (ckpt_senv uenv) n = Some ds -> NoDup (map fst ds)),
+  forall s id cp s1 later s2,
+    has_type (ckpt_senv uenv) cp t_checkpoint_ptr = true ->
+    cp_set J JK jenc kenc (ckpt_reg ureg) s id cp = Ok s1 ->
+    Forall (fun w => fst w <> id) later ->
+    cp_sets J JK jenc kenc (ckpt_reg ureg) s1 later = Ok s2 ->
+    cp_get J JK jdec kdec (ckpt_reg ureg) (ckpt_senv uenv) s2 id <> Panic /\
+    forall r, cp_get J JK jdec kdec (ckpt_reg ureg) (ckpt_senv uenv) s2 id = Ok r ->
+      exists cp', r = Some cp' /\ ty_of cp' = t_checkpoint_ptr.
+Proof. exact store_get_total_lemma. Qed.
+Print Assumptions checkpoint_get_never_panics.
+(* a set that fails is loud and stores nothing: set returns Marshal's error *)
+Theorem checkpoint_set_fails_loudly :
+  forall (J JK : Type) (jenc : base -> lit -> res J) (kenc : base -> lit -> res JK) (reg : registry) s id cp e,
+    marshal J JK jenc kenc fixed reg cp = Err e -> cp_set J JK jenc kenc reg s id cp = Err e.
+Proof. exact cp_set_err. Qed.
+
 (* 6. Before the repairs the round trip was false ([rt_statement fx] is statement 4 for
       the code variant fx; it holds for [fixed]). *)
 Theorem enc_dec_roundtrip_holds_fixed : rt_statement fixed.
@@ -333,3 +405,26 @@ Proof.
   cbv zeta. split; [cbn [looked_up flat_map snd app stripped strip_ptr]; right; left; reflexivity|].
   split; vm_compute; reflexivity.
 Qed.
+(* 2b' is not vacuous: +Inf as a float32 behind a pointer in a slice of pointers behind a pointer,
+   a NaN map key inside a struct field inside an interface; both refused.  5c is not vacuous:
+   the sample checkpoint written over an earlier one, followed by a write under another id, is
+   read back (the second half is the scenario the correspondence check runs) *)
+Example nan_inf_nonvacuous :
+  In (BFloat32, LFloat 2139095040) (val_lits w_inf) /\ unencodable_c BFloat32 (LFloat 2139095040) = true /\
+  enc_c fixed builtin_registry w_inf = Err E_JSON /\
+  In (BFloat64, LFloat 9221120237041090560) (key_lits w_nankey) /\
+  unencodable_c BFloat64 (LFloat 9221120237041090560) = true /\
+  enc_c fixed w_a_reg w_nankey = Err E_JSON.
+Proof.
+  split; [simpl; tauto|]. split; [vm_compute; reflexivity|]. split; [vm_compute; reflexivity|].
+  split; [simpl; tauto|]. split; vm_compute; reflexivity.
+Qed.
+Example checkpoint_store_nonvacuous :
+  is_ok (do s1 <- cp_set lit lit jenc_c kenc_c (ckpt_reg []) [("a"%string, None)] "a" sample_checkpoint;
+         do s2 <- cp_sets lit lit jenc_c kenc_c (ckpt_reg []) s1 [("b"%string, ckpt_other)];
+         cp_get lit lit jdec_c kdec_c (ckpt_reg []) (ckpt_senv []) s2 "a") = true /\
+  match store_scenario_c (ckpt_reg []) (ckpt_senv []) sample_checkpoint with
+  | Ok (Some cp') => ty_eqb (ty_of cp') t_checkpoint_ptr
+  | _ => false
+  end = true.
+Proof. split; vm_compute; reflexivity. Qed.
